@@ -485,6 +485,22 @@ func (u *Unit) specCall(st *State, e *SExpr, env *SpecEnv, q *bool) *Val {
 	case "has": // has(m, k): key in builtin map
 		m, k := ev(0), ev(1)
 		return boolVal(app("select", u.mapDom(st, m.T, m.S), u.scalar(st, k)))
+	case "xhas", "xget": // xsync.Map as a mathematical map: xhas(m,k), xget(m,k)
+		m, k := ev(0), ev(1)
+		kt, vt, ok := xsyncMapTypes(m.T)
+		if !ok {
+			u.eng.specError("%s: %s on a non-xsync map", env.what, fn.Name)
+			return boolVal("true")
+		}
+		ref := m.S
+		if ref == "" {
+			ref = u.scalar(st, m)
+		}
+		v, has := u.xmapLoad(st, kt, vt, ref, u.scalar(st, k))
+		if fn.Name == "xhas" {
+			return boolVal(has)
+		}
+		return v
 	case "seen": // inside range-map loop invariants: key already visited
 		k := ev(0)
 		return boolVal(app("select", u.curLoopSeen[env.loopN], u.scalar(st, k)))
